@@ -433,6 +433,12 @@ def build_constant_lifting(eng):
     CM = "onnx_ir.passes.common.constant_manipulation"
     schema.core_ir(eng)
     eng.declare_class_from_source(CM, "LiftConstantsToInitializersPass", fields={"lift_all_constants": BOOL, "size_limit": INT})
+    if "PassResult" not in eng.classes:
+        PI = "onnx_ir.passes._pass_infra"
+        if "Model" not in eng.classes:
+            schema.opaque_class(eng, "Model")
+        eng.declare_class_from_source(PI, "PassResult", fields={"model": TRef("Model"), "modified": BOOL})
+        eng.classes["PassResult"].dataclass_fields = ["model", "modified"]
     denotes = z3.Function("denotes", Ref, Ref, z3.BoolSort())
     eng.spec_ufuncs["denotes"] = (denotes, BOOL)
     if "Model" not in eng.classes:
@@ -450,6 +456,7 @@ def build_constant_lifting(eng):
                   "len(self._producer._outputs) >= 1 and self._producer._outputs[0] is self", "not self._is_graph_output",
                   "nonnull(replacement._const_value) and denotes(replacement._const_value, self._producer)"],
         ensures=[KEEP], raises={"AnyException": []}, modifies=None)
+    rauw.edits_ir = True
 
     def fresh_nodes(e, p, args, kwargs, node):
         v = e.symbolic_param(p, fresh_name("all_nodes"), TSeq(TRef("Node")))
@@ -471,6 +478,7 @@ def build_constant_lifting(eng):
         for nm in ("register_initializer", "remove"):
             e.functions[f"{CORE}.Graph.{nm}"] = FnDecl(f"{CORE}.Graph.{nm}", "contract", CORE, f"Graph.{nm}", requires=[], ensures=[KEEP],
                                                         raises={"AnyException": []}, modifies=None)
+            e.functions[f"{CORE}.Graph.{nm}"].edits_ir = True
         e.lib_models["c05.traversal"] = fresh_nodes
         e.lib_models["c05.Value"] = new_value
         orig = e.module_attr
@@ -485,10 +493,13 @@ def build_constant_lifting(eng):
     eng.add_target(Target("LiftConstantsToInitializersPass.call", mod=CM, qual="LiftConstantsToInitializersPass.call",
         self_cls="LiftConstantsToInitializersPass", params={"model": TRef("Model")}, setup=setup,
         requires=["nonnull(model)", "forall(lambda n=Node, j=int: implies(0 <= j and j < len(n._outputs), nonnull(n._outputs[j]) and n._outputs[j]._producer is n))"],
+        ghost_init="g_edits = 0",
         loops={"for node in ir.traversal.RecursiveGraphIterator(model.graph)": LoopSpec(
-            invariant=["forall(lambda n=Node, j=int: implies(old(allocated(n)) and 0 <= j and j < len(n._outputs), nonnull(n._outputs[j]) and n._outputs[j]._producer is n))"],
+            invariant=["forall(lambda n=Node, j=int: implies(old(allocated(n)) and 0 <= j and j < len(n._outputs), nonnull(n._outputs[j]) and n._outputs[j]._producer is n))",
+                       # modified-flag soundness (C14): an IR edit has happened only if a constant has been counted
+                       "count >= 0", "implies(g_edits > 0, count > 0)"],
             modifies=None)},
-        ensures=[], raises_default=[], modifies=None, assert_mode="raise"))
+        ensures=["implies(result.modified == False, g_edits == 0)"], raises_default=[], modifies=None, assert_mode="raise"))
 
 
 def build_initializer_input_conversion(eng):
